@@ -39,6 +39,16 @@ def fresh_v(prefix: str = "v"):
     return z3.Const(fresh_name(prefix), V)
 
 
+# family id of references created per element of a comprehension (0: an individually allocated reference)
+SkFam = z3.Function("SkFam", V, z3.IntSort())
+_fam_counter = [0]
+
+
+def next_family():
+    _fam_counter[0] += 1
+    return _fam_counter[0]
+
+
 def fresh_int(prefix: str = "i"):
     return z3.Int(fresh_name(prefix))
 
